@@ -1,6 +1,7 @@
 /- Helper lemmas tying the exporter model (Model/Ahab.lean) to the independent checker (Spec/AhabRom.lean). -/
 import SpsdkVerif.Proofs.Ahab
 import SpsdkVerif.Proofs.Crypto
+import SpsdkVerif.Properties.C16
 
 namespace SpsdkVerif.Ahab
 open SpsdkVerif SpsdkVerif.Misc
@@ -107,5 +108,543 @@ theorem encodeIaes_slice (l : AhabConsts.Layout) (hw : l.intWidths = [4, 4, 8, 8
       have := slice_append_right a1 a2 (128 * i) 128
       rw [hl1] at this
       rw [show 128 * (i + 1) = 128 + 128 * i from by omega, this, hsl]
+
+
+/-! ### the independent entry check accepts what the model exports -/
+
+open SpsdkVerif.Spec.AhabRom (checkEntry Params paramsV1 paramsV2 hashOfTag padHash)
+open SpsdkVerif.Crypto (CryptoOps CryptoLaws cbcDec)
+
+def romParams (v : Ver) (maxC maxI : Nat) : Params :=
+  match v with | .v1 => paramsV1 maxC maxI | .v2 => paramsV2 maxC maxI
+
+theorem romParams_bits (v : Ver) (maxC maxI : Nat) :
+    (romParams v maxC maxI).encBit = v.encOff ∧ (romParams v maxC maxI).hashBits = v.hashSize ∧ v.hashOff = 8 ∧ v.encSize = 1 := by
+  cases v <;> exact ⟨rfl, rfl, rfl, rfl⟩
+
+theorem hashOfTag_eq (t : Nat) : hashOfTag t = hashAlgOfTag t := rfl
+
+theorem padHash_eq (d : Bytes) : padHash d = extendTo 64 d := rfl
+
+theorem isEncrypted_iff (v : Ver) (flags : Nat) :
+    Iae.isEncrypted v flags = true ↔ (flags >>> v.encOff) % 2 = 1 := by
+  unfold Iae.isEncrypted
+  rw [getF_eq, (romParams_bits v 0 0).2.2.2, Nat.shiftRight_eq_div_pow]
+  simp
+
+theorem checkEntry_accepts (c : CryptoOps) (v : Ver) (maxC maxI : Nat) (bin X : Bytes) (base pos : Nat) (e : Iae)
+    (alg : Crypto.HashAlg) (dek : Option Bytes)
+    (hX : slice bin pos X.length = X) (henc : encodeIae v.iaeLayout e = .ok X)
+    (hh : e.hash.length = 64) (hi : e.iv.length = 32)
+    (hin : base + e.imageOffset + e.imageSize ≤ bin.length)
+    (halg : hashAlgOfTag (Iae.hashTag v e.flags) = some alg)
+    (hhash : e.hash = extendTo 64 (c.hash alg (slice bin (base + e.imageOffset) e.imageSize)))
+    (hcr : Iae.isEncrypted v e.flags = true → ∃ k, dek = some k ∧ e.imageSize % 16 = 0 ∧
+      c.hash .sha256 (cbcDec c k (e.iv.drop 16) (slice bin (base + e.imageOffset) e.imageSize)) = e.iv) :
+    checkEntry c (romParams v maxC maxI) bin base pos dek =
+      .ok ⟨base + e.imageOffset, e.imageSize, e.flags, Iae.isEncrypted v e.flags⟩ := by
+  obtain ⟨hl, f1, f2, f3, f4, f5⟩ := iae_fields v.iaeLayout (iaeLayout_facts v).1 (iaeLayout_facts v).2.1 e X hh hi henc
+  obtain ⟨pb1, pb2, pb3, _⟩ := romParams_bits v maxC maxI
+  have r1 : rd bin pos 4 = e.imageOffset := by
+    have := rd_of_eq bin X pos 0 4 hX (by omega); rw [Nat.add_zero] at this; rw [this, f1]
+  have r2 : rd bin (pos + 4) 4 = e.imageSize := by rw [rd_of_eq bin X pos 4 4 hX (by omega), f2]
+  have r3 : rd bin (pos + 0x18) 4 = e.flags := by rw [rd_of_eq bin X pos 0x18 4 hX (by omega), f3]
+  have r4 : slice bin (pos + Spec.AhabRom.hashFieldOff) Spec.AhabRom.hashFieldLen = e.hash := by
+    rw [show Spec.AhabRom.hashFieldOff = 0x20 from rfl, show Spec.AhabRom.hashFieldLen = 64 from rfl,
+        slice_of_eq bin X pos 0x20 64 hX (by omega), f4]
+  have r5 : slice bin (pos + Spec.AhabRom.ivFieldOff) Spec.AhabRom.ivFieldLen = e.iv := by
+    rw [show Spec.AhabRom.ivFieldOff = 0x60 from rfl, show Spec.AhabRom.ivFieldLen = 32 from rfl,
+        slice_of_eq bin X pos 0x60 32 hX (by omega), f5]
+  unfold checkEntry
+  simp only [r1, r2, r3, r4, r5]
+  have hnot : ¬ (base + e.imageOffset + e.imageSize > bin.length) := by omega
+  rw [if_neg hnot]
+  have htag : (e.flags >>> 8) % 2 ^ (romParams v maxC maxI).hashBits = Iae.hashTag v e.flags := by
+    unfold Iae.hashTag
+    rw [getF_eq, pb2, pb3, Nat.shiftRight_eq_div_pow]
+  rw [htag, hashOfTag_eq, halg]
+  simp only
+  rw [padHash_eq, ← hhash]
+  simp only [ne_eq, not_true_eq_false, if_false]
+  rw [pb1]
+  by_cases he : Iae.isEncrypted v e.flags = true
+  · have he' := (isEncrypted_iff v e.flags).1 he
+    rw [if_pos he']
+    obtain ⟨k, hk, h16, hiv⟩ := hcr he
+    subst hk
+    simp only [h16, not_true_eq_false, if_false, hiv, he]
+  · have he' : ¬ ((e.flags >>> v.encOff) % 2 = 1) := fun h => he ((isEncrypted_iff v e.flags).2 h)
+    rw [if_neg he']
+    have : Iae.isEncrypted v e.flags = false := by simpa using he
+    rw [this]
+
+
+/-! ### placement through the BinaryImage tree (C16) -/
+
+section tree
+open SpsdkVerif.BinImg SpsdkVerif.C16
+
+theorem addAll_children (p : Img) : ∀ (l : List Img) (x : Img), x ∈ (addAll p l).children ↔ x ∈ p.children ∨ x ∈ l := by
+  intro l
+  induction l generalizing p with
+  | nil => intro x; simp [addAll]
+  | cons c l ih =>
+    intro x
+    have := ih (p.addImage c) x
+    simp only [addAll, List.foldl_cons] at this ⊢
+    rw [this, children_addImage, mem_insertSorted]
+    simp only [List.mem_cons]
+    constructor
+    · rintro ((h | h) | h)
+      · exact Or.inr (Or.inl h)
+      · exact Or.inl h
+      · exact Or.inr (Or.inr h)
+    · rintro (h | h | h)
+      · exact Or.inl (Or.inr h)
+      · exact Or.inl (Or.inl h)
+      · exact Or.inr h
+
+theorem addImage_fields (p c : Img) : (p.addImage c).size = p.size ∧ (p.addImage c).offset = p.offset ∧
+    (p.addImage c).alignment = p.alignment := by
+  cases p; exact ⟨rfl, rfl, rfl⟩
+
+theorem addAll_fields (p : Img) : ∀ (l : List Img), (addAll p l).size = p.size ∧ (addAll p l).offset = p.offset ∧
+    (addAll p l).alignment = p.alignment := by
+  intro l
+  induction l generalizing p with
+  | nil => exact ⟨rfl, rfl, rfl⟩
+  | cons c l ih =>
+    have := ih (p.addImage c)
+    have f := addImage_fields p c
+    simp only [addAll, List.foldl_cons] at this ⊢
+    exact ⟨this.1.trans f.1, this.2.1.trans f.2.1, this.2.2.trans f.2.2⟩
+
+theorem addAll_alignWF (p : Img) (l : List Img) (hp : AlignWF p) (hl : ∀ x ∈ l, AlignWF x) : AlignWF (addAll p l) := by
+  cases hp with
+  | mk _ h1 h2 h3 =>
+    have f := addAll_fields p l
+    refine AlignWF.mk _ (by rw [f.2.2]; exact h1) (by rw [f.1, f.2.2]; exact h2) ?_
+    intro c hc
+    rcases (addAll_children p l c).1 hc with h | h
+    · exact h3 c h
+    · exact hl c h
+
+theorem leaf_alignWF (s o : Nat) (b : Option Bytes) (pat : Option Pattern) : AlignWF (Img.mk s o 1 b pat []) :=
+  AlignWF.mk _ (by simp [Img.alignment]) (by simp [Img.size, Img.alignment, Nat.mod_one]) (fun c hc => by cases hc)
+
+/-- a leaf with a binary exports the binary, zero-extended to the explicit size -/
+theorem leaf_export (size off : Nat) (b : Bytes) (hle : b.length ≤ size) (h0 : size = 0 → b = []) :
+    (Img.mk size off 1 (some b) none []).export = .ok (extendTo size b) := by
+  have hL : (Img.mk size off 1 (some b) none []).len = size := by
+    unfold Img.len
+    by_cases hs : size = 0
+    · have := h0 hs; subst this; subst hs; simp [binLen, childrenEnd, alignNat]
+    · simp [hs]
+  unfold Img.export
+  rw [hL]
+  by_cases hb : b = []
+  · subst hb
+    simp [finishExport, ownBuf, patBlock, alignNat_one, extendTo]
+  · have hne : b.isEmpty = false := by cases b <;> simp_all
+    by_cases he : size = b.length
+    · subst he; simp [hne, extendTo]
+    · have : (size == b.length) = false := by simpa using he
+      simp only [hne, this, Bool.not_false, Bool.true_and, Bool.false_eq_true, if_false]
+      simp [finishExport, ownBuf, patBlock, hne, alignNat_one, extendTo]
+
+theorem extendTo_length (n : Nat) (b : Bytes) (h : b.length ≤ n) : (extendTo n b).length = n := by
+  simp [extendTo]; omega
+
+theorem extendTo_self (b : Bytes) : extendTo b.length b = b := by simp [extendTo]
+
+/-- the exported AHAB image holds every container at its offset and every image (zero-extended to its size) at its offset -/
+theorem tree_places (ch : Chip) (v : Ver) (us : List UContainer) (cbytes : List Bytes) (bin : Bytes)
+    (hA : 0 < ch.imageAlignment)
+    (hv : (imageInfo ch v us cbytes).validate = .ok ()) (hb : (imageInfo ch v us cbytes).export = .ok bin) :
+    (∀ u b, (u, b) ∈ us.zip cbytes → b ≠ [] → headerLength v u.placed.length (sbLayout v u.cont.sb).length = b.length →
+      slice bin u.base b.length = b) ∧
+    (∀ p ∈ allPlaced us, p.ready.image.length ≤ p.ready.size → (p.ready.size = 0 → p.ready.image = []) →
+      slice bin p.offset p.ready.size = extendTo p.ready.size p.ready.image) := by
+  have hcn : AlignWF (contNode ch v us cbytes) := by
+    unfold contNode
+    refine addAll_alignWF _ _ (leaf_alignWF _ _ _ _) ?_
+    intro x hx
+    obtain ⟨ub, _, rfl⟩ := List.mem_map.1 hx
+    exact leaf_alignWF _ _ _ _
+  have hroot : AlignWF (imageInfo ch v us cbytes) := by
+    unfold imageInfo
+    refine addAll_alignWF _ _ (AlignWF.mk _ hA ?_ ?_) ?_
+    · simp only [Img.size, Img.alignment]
+      exact (alignNat_spec _ _ hA).1
+    · intro c hc
+      simp only [Img.children, List.mem_singleton] at hc
+      subst hc; exact hcn
+    · intro x hx
+      obtain ⟨p, _, rfl⟩ := List.mem_map.1 hx
+      exact leaf_alignWF _ _ _ _
+  have hcnmem : contNode ch v us cbytes ∈ (imageInfo ch v us cbytes).children := by
+    unfold imageInfo
+    rw [addAll_children]
+    exact Or.inl (List.mem_singleton.2 rfl)
+  have hcnoff : (contNode ch v us cbytes).offset = 0 := by
+    unfold contNode; rw [(addAll_fields _ _).2.1]; rfl
+  refine ⟨?_, ?_⟩
+  · intro u b hub hne hlen
+    have hmem : contImg v u b ∈ (contNode ch v us cbytes).children := by
+      unfold contNode
+      rw [addAll_children]
+      exact Or.inr (List.mem_map.2 ⟨(u, b), hub, rfl⟩)
+    have hd : DescAt (imageInfo ch v us cbytes) ((contNode ch v us cbytes).offset + ((contImg v u b).offset + 0)) (contImg v u b) :=
+      DescAt.step _ _ _ _ hcnmem (DescAt.step _ _ _ _ hmem (DescAt.self _))
+    have hexp : (contImg v u b).export = .ok b := by
+      unfold contImg
+      rw [hlen, leaf_export b.length u.base b (Nat.le_refl _) (fun h => List.eq_nil_of_length_eq_zero h), extendTo_self]
+    have := export_desc_at _ _ _ bin b hv hroot hd hb hexp
+    rw [hcnoff] at this
+    simpa [slice, contImg, Img.offset] using this
+  · intro p hp hle h0
+    have hmem : dataImg p ∈ (imageInfo ch v us cbytes).children := by
+      unfold imageInfo
+      rw [addAll_children]
+      exact Or.inr (List.mem_map.2 ⟨p, hp, rfl⟩)
+    have hd : DescAt (imageInfo ch v us cbytes) ((dataImg p).offset + 0) (dataImg p) := DescAt.step _ _ _ _ hmem (DescAt.self _)
+    have hexp : (dataImg p).export = .ok (extendTo p.ready.size p.ready.image) := by
+      unfold dataImg; exact leaf_export _ _ _ hle h0
+    have := export_desc_at _ _ _ bin _ hv hroot hd hb hexp
+    rw [extendTo_length _ _ hle] at this
+    simpa [slice, dataImg, Img.offset] using this
+
+end tree
+
+
+/-! ### what `update_fields` establishes for every entry -/
+
+theorem alignNat_ge (n a : Nat) (ha : 0 < a) : n ≤ alignNat n a := (alignNat_spec n a ha).2.1
+
+theorem validSize_ge (ch : Chip) (v : Ver) (flags sa : Nat) (image : Bytes) :
+    image.length ≤ validSize ch v flags sa image ∧ (validSize ch v flags sa image = 0 → image = []) := by
+  unfold validSize
+  by_cases h0 : image = []
+  · subst h0; simp
+  · have hne : image.isEmpty = false := by cases image <;> simp_all
+    have hpos : 0 < image.length := List.length_pos_iff.2 h0
+    simp only [hne, Bool.false_eq_true, if_false]
+    by_cases h1 : sa = 0
+    · subst h1
+      simp only [ne_eq, not_true_eq_false, if_false]
+      have : 0 < (if ch.isEle v flags = true then 4 else 1) := by split <;> omega
+      have := alignNat_ge image.length _ this
+      exact ⟨this, fun h => by omega⟩
+    · simp only [ne_eq, h1, not_false_eq_true, if_true]
+      have := alignNat_ge image.length sa (Nat.pos_of_ne_zero h1)
+      exact ⟨this, fun h => by omega⟩
+
+theorem readyEntry_spec (c : CryptoOps) (hc : CryptoLaws c) (ch : Chip) (v : Ver) (dek : Option Bytes) (e : Entry) (r : Ready)
+    (h : readyEntry c ch v dek e = .ok r) :
+    ∃ a, hashAlgOfTag (Iae.hashTag v e.flags) = some a ∧
+      r.hash = extendTo 64 (c.hash a (extendTo r.size r.image)) ∧ r.hash.length = 64 ∧ r.iv.length = 32 ∧
+      r.size = validSize ch v e.flags e.sizeAlign r.image ∧
+      (Iae.isEncrypted v e.flags = true → r.iv = c.hash .sha256 (storedImage ch e.data) ∧
+        ∀ k, dek = some k → r.image = Crypto.cbcEnc c k (r.iv.drop 16) (Crypto.zeroPad16 (storedImage ch e.data))) := by
+  unfold readyEntry at h
+  simp only at h
+  cases ha : hashAlgOfTag (Iae.hashTag v e.flags) with
+  | none => rw [ha] at h; cases h
+  | some a =>
+    rw [ha] at h
+    simp only [Except.ok.injEq] at h
+    subst h
+    refine ⟨a, rfl, rfl, ?_, ?_, rfl, ?_⟩
+    · show (extendTo AhabConsts.iaeHashLen _).length = 64
+      have hs : a.size ≤ 64 := by cases a <;> decide
+      rw [extendTo_length _ _ (by rw [hc.hash_len]; exact hs)]
+      rfl
+    · show (if Iae.isEncrypted v e.flags = true then c.hash .sha256 (storedImage ch e.data) else zerosB AhabConsts.iaeIvLen).length = 32
+      split
+      · rw [hc.hash_len]; rfl
+      · rw [zerosB_length]; rfl
+    · intro he
+      simp only [he, if_true]
+      refine ⟨trivial, ?_⟩
+      intro k hk
+      subst hk
+      rfl
+
+
+theorem readyEntries_spec (c : CryptoOps) (ch : Chip) (v : Ver) (dek : Option Bytes) :
+    ∀ (es : List Entry) (rs : List Ready), readyEntries c ch v dek es = .ok rs →
+      rs.length = es.length ∧ ∀ er ∈ es.zip rs, readyEntry c ch v dek er.1 = .ok er.2
+  | [], rs, h => by cases h; exact ⟨rfl, fun _ h => by cases h⟩
+  | e :: es, rs, h => by
+    unfold readyEntries at h
+    cases h1 : readyEntry c ch v dek e with
+    | error err => rw [h1] at h; cases h2 : readyEntries c ch v dek es <;> rw [h2] at h <;> cases h
+    | ok r =>
+      cases h2 : readyEntries c ch v dek es with
+      | error err => rw [h1, h2] at h; cases h
+      | ok rs' =>
+        rw [h1, h2] at h; cases h
+        have ih := readyEntries_spec c ch v dek es rs' h2
+        refine ⟨by simp [ih.1], ?_⟩
+        intro er her
+        simp only [List.zip_cons_cons, List.mem_cons] at her
+        rcases her with rfl | her
+        · exact h1
+        · exact ih.2 er her
+
+/-- every placed entry of an updated container: its bytes come from `readyEntry`, its IAE from `mkIae` -/
+theorem updateContainers_entries (c : CryptoOps) (ch : Chip) (v : Ver) : ∀ (cs : List Container) (ix cur : Nat)
+    (us : List UContainer), updateContainers c ch v ix cur cs = .ok us →
+    ∀ u ∈ us, ∀ p ∈ u.placed,
+      readyEntry c ch v (if u.cont.sb.blob.isSome then u.cont.dek else none) p.entry = .ok p.ready ∧
+      p.iae = mkIae u.base p.offset p.entry p.ready
+  | [], _, _, us, h => by cases h; intro u hu; cases hu
+  | ct :: rest, ix, cur, us, h => by
+    unfold updateContainers at h
+    cases hb : v.containerOffset ix with
+    | error e => rw [hb] at h; simp at h
+    | ok base =>
+      cases hr : readyEntries c ch v (if ct.sb.blob.isSome then ct.dek else none) ct.entries with
+      | error e => rw [hb, hr] at h; simp at h
+      | ok rs =>
+        rw [hb, hr] at h
+        simp only at h
+        cases hu : updateContainers c ch v (ix + 1) (placeEntries ch v base cur (ct.entries.zip rs)).2 rest with
+        | error e => rw [hu] at h; cases h
+        | ok us' =>
+          rw [hu] at h; cases h
+          have ih := updateContainers_entries c ch v rest (ix + 1) _ us' hu
+          intro u hu'
+          rcases List.mem_cons.1 hu' with rfl | hu'
+          · intro p hp
+            have hpe := placeEntries_assigned ch v base (ct.entries.zip rs) cur
+            have hmem : (p.entry, p.ready) ∈ ct.entries.zip rs := by
+              rw [← hpe.2.2.1]
+              exact List.mem_map.2 ⟨p, hp, rfl⟩
+            exact ⟨(readyEntries_spec c ch v _ ct.entries rs hr).2 _ hmem, hpe.2.2.2 p hp⟩
+          · exact ih u hu'
+
+theorem exportAll_spec (v : Ver) : ∀ (us : List UContainer) (cbytes : List Bytes), exportAll v us = .ok cbytes →
+    cbytes.length = us.length ∧ ∀ ub ∈ us.zip cbytes, ub.1.export v = .ok ub.2
+  | [], cb, h => by cases h; exact ⟨rfl, fun _ h => by cases h⟩
+  | u :: us, cb, h => by
+    unfold exportAll at h
+    cases h1 : u.export v with
+    | error err => rw [h1] at h; cases h2 : exportAll v us <;> rw [h2] at h <;> cases h
+    | ok b =>
+      cases h2 : exportAll v us with
+      | error err => rw [h1, h2] at h; cases h
+      | ok bs =>
+        rw [h1, h2] at h; cases h
+        have ih := exportAll_spec v us bs h2
+        refine ⟨by simp [ih.1], ?_⟩
+        intro ub hub
+        simp only [List.zip_cons_cons, List.mem_cons] at hub
+        rcases hub with rfl | hub
+        · exact h1
+        · exact ih.2 ub hub
+
+theorem mem_zip_of_length {α β} : ∀ (l1 : List α) (l2 : List β) (x : α), l2.length = l1.length → x ∈ l1 → ∃ y, (x, y) ∈ l1.zip l2
+  | [], _, _, _, h => by cases h
+  | a :: l1, [], _, hl, _ => by simp at hl
+  | a :: l1, b :: l2, x, hl, h => by
+    rcases List.mem_cons.1 h with rfl | h
+    · exact ⟨b, by simp⟩
+    · obtain ⟨y, hy⟩ := mem_zip_of_length l1 l2 x (by simpa using hl) h
+      exact ⟨y, by simp [hy]⟩
+
+
+theorem sbo_exact (v : Ver) (n : Nat) : sigBlockOffset v n = 16 + 128 * n := by
+  unfold sigBlockOffset al8
+  rw [(hdrLayout_widths v).2, (iaeLayout_facts v).2.2]
+  have : AhabConsts.containerAlignment = 8 := rfl
+  rw [this, BinImg.alignNat_of_mod _ 8 (by decide) (by omega)]
+  omega
+
+theorem Image.export_unfold (c : CryptoOps) (img : Image) (bin : Bytes) (h : img.export c = .ok bin) :
+    ∃ us cbytes, img.update c = .ok us ∧ offsetsOk us = true ∧ exportAll img.ver us = .ok cbytes ∧
+      (imageInfo img.chip img.ver us cbytes).validate = .ok () ∧ (imageInfo img.chip img.ver us cbytes).export = .ok bin := by
+  unfold Image.export at h
+  cases hu : img.update c with
+  | error e => rw [hu] at h; cases h
+  | ok us =>
+    rw [hu] at h
+    simp only at h
+    by_cases ho : offsetsOk us = true
+    · simp only [ho, Bool.not_true, Bool.false_eq_true, if_false] at h
+      cases he : exportAll img.ver us with
+      | error e => rw [he] at h; cases h
+      | ok cbytes =>
+        rw [he] at h
+        simp only at h
+        cases hv : (imageInfo img.chip img.ver us cbytes).validate with
+        | error e => rw [hv] at h; cases h
+        | ok x => rw [hv] at h; exact ⟨us, cbytes, rfl, ho, he, hv, h⟩
+    · have : offsetsOk us = false := by simpa using ho
+      simp [this] at h
+
+/-- `rom_accepts`, hash / placement / decryption part: the independent entry check accepts every image-array entry of an
+    exported image, for every cryptographic instance satisfying `CryptoLaws`.
+    The hypothesis on encrypted entries (the stored cipher text is not zero-extended after encryption and its plain text is a
+    whole number of AES blocks) excludes exactly the open finding C06-encrypted-size-alignment. -/
+theorem rom_accepts_entry' (c : CryptoOps) (hc : CryptoLaws c) (img : Image) (bin : Bytes) (maxC maxI : Nat)
+    (hexp : img.export c = .ok bin) (hA : 0 < img.chip.imageAlignment)
+    (us : List UContainer) (hus : img.update c = .ok us) (u : UContainer) (hu : u ∈ us)
+    (i : Nat) (p : Placed) (hp : u.placed[i]? = some p)
+    (hblob : BlobLenOK u.cont.sb) (hsz : 0 < p.ready.size)
+    (hnoext : Iae.isEncrypted img.ver p.entry.flags = true → u.cont.sb.blob.isSome = true →
+      p.ready.size = p.ready.image.length ∧ (storedImage img.chip p.entry.data).length % 16 = 0 ∧ u.cont.dek.isSome = true) :
+    Iae.isEncrypted img.ver p.entry.flags = true ∧ u.cont.sb.blob.isSome = false ∨
+    checkEntry c (romParams img.ver maxC maxI) bin u.base (u.base + (16 + 128 * i))
+        (if u.cont.sb.blob.isSome then u.cont.dek else none) =
+      .ok ⟨p.offset, p.ready.size, p.entry.flags, Iae.isEncrypted img.ver p.entry.flags⟩ := by
+  by_cases hcase : Iae.isEncrypted img.ver p.entry.flags = true ∧ u.cont.sb.blob.isSome = false
+  · exact Or.inl hcase
+  right
+  obtain ⟨us', cbytes, hus', hoff, hall, hval, hbin⟩ := Image.export_unfold c img bin hexp
+  rw [hus] at hus'; cases hus'
+  have hpm : p ∈ u.placed := List.mem_of_getElem? hp
+  have hent := updateContainers_entries c img.chip img.ver img.containers 0 _ us hus u hu p hpm
+  obtain ⟨a, halg, hhash, hhl, hivl, hsize, hencr⟩ := readyEntry_spec c hc img.chip img.ver _ p.entry p.ready hent.1
+  have hvs := validSize_ge img.chip img.ver p.entry.flags p.entry.sizeAlign p.ready.image
+  rw [← hsize] at hvs
+  -- container bytes
+  have hea := exportAll_spec img.ver us cbytes hall
+  obtain ⟨cb, hcbm⟩ := mem_zip_of_length us cbytes u hea.1 hu
+  have hcbe : u.export img.ver = .ok cb := hea.2 _ hcbm
+  unfold UContainer.export at hcbe
+  obtain ⟨hd, ab, s, hdr, e1, e2, _, _, e5, e6, e7, _⟩ := exportContainer_spec img.ver u.cont _ cb hblob hcbe
+  simp only [List.length_map] at e1 e5 e6 e7
+  have hdl := encodeHeader_length _ _ _ _ _ _ _ hd e1
+  have hsbo := sbo_exact img.ver u.placed.length
+  have hhl2 : headerLength img.ver u.placed.length (sbLayout img.ver u.cont.sb).length = cb.length := by
+    unfold headerLength
+    rw [(hdrLayout_widths img.ver).2, (iaeLayout_facts img.ver).2.2, e7, hsbo]; omega
+  have hcbne : cb ≠ [] := by
+    intro h; rw [h] at e7; simp at e7; omega
+  have hplaces := tree_places img.chip img.ver us cbytes bin hA hval hbin
+  have hcbin := hplaces.1 u cb hcbm hcbne hhl2
+  -- the entry's bytes
+  have hiae : (u.placed.map (·.iae))[i]? = some p.iae := by simp [hp]
+  obtain ⟨X, hX, hsl, hle⟩ := encodeIaes_slice img.ver.iaeLayout (iaeLayout_facts img.ver).1 (iaeLayout_facts img.ver).2.1 _ ab i p.iae e2 hiae
+  have hXl := encodeIae_length img.ver.iaeLayout (iaeLayout_facts img.ver).1 (iaeLayout_facts img.ver).2.1 _ X hX
+  have hXcb : slice cb (16 + 128 * i) 128 = X := by
+    rw [e5, List.append_assoc, List.append_assoc]
+    have := slice_append_right hd (ab ++ (zerosB (sigBlockOffset img.ver u.placed.length - (hd ++ ab).length) ++ s)) (128 * i) 128
+    rw [hdl] at this
+    rw [this, slice_append_left _ _ _ _ hle, hsl]
+  have hXbin : slice bin (u.base + (16 + 128 * i)) X.length = X := by
+    rw [hXl, slice_of_eq bin cb u.base (16 + 128 * i) 128 hcbin (by
+      have hl2 := encodeIaes_length img.ver.iaeLayout (iaeLayout_facts img.ver).1 (iaeLayout_facts img.ver).2.1 _ ab e2
+      simp only [List.length_map] at hl2
+      rw [e7, hsbo]; omega), hXcb]
+  -- offsets
+  have hbase : u.base ≤ p.offset := by
+    unfold offsetsOk at hoff
+    have := (List.all_eq_true.1 hoff) u hu
+    have := (List.all_eq_true.1 this) p hpm
+    simpa using this
+  have hio : u.base + p.iae.imageOffset = p.offset := by rw [hent.2]; simp only [mkIae]; omega
+  have hisz : p.iae.imageSize = p.ready.size := by rw [hent.2]; rfl
+  have hifl : p.iae.flags = p.entry.flags := by rw [hent.2]; rfl
+  -- image bytes in the file
+  have hdata := hplaces.2 p (List.mem_flatMap.2 ⟨u, hu, hpm⟩) hvs.1 hvs.2
+  have hin : u.base + p.iae.imageOffset + p.iae.imageSize ≤ bin.length := by
+    rw [hio, hisz]
+    have hl := congrArg List.length hdata
+    rw [extendTo_length _ _ hvs.1] at hl
+    simp only [slice, List.length_take, List.length_drop] at hl
+    omega
+  have := checkEntry_accepts c img.ver maxC maxI bin X u.base (u.base + (16 + 128 * i)) p.iae a
+    (if u.cont.sb.blob.isSome then u.cont.dek else none) hXbin hX (by rw [hent.2]; exact hhl) (by rw [hent.2]; exact hivl) hin
+    (by rw [hifl]; exact halg)
+    (by rw [hio, hisz, hdata]; rw [hent.2]; exact hhash)
+    (by
+      rw [hifl]
+      intro he
+      have hbs : u.cont.sb.blob.isSome = true := by
+        cases hb : u.cont.sb.blob.isSome
+        · exact absurd ⟨he, hb⟩ hcase
+        · rfl
+      obtain ⟨hsz', h16, hdk⟩ := hnoext he hbs
+      obtain ⟨k, hk⟩ := Option.isSome_iff_exists.1 hdk
+      refine ⟨k, by simp [hbs, hk], ?_, ?_⟩
+      · rw [hisz, hsz']
+        have hi := (hencr he).2 k (by simp [hbs, hk])
+        rw [hi, Crypto.cbcEnc_length hc]
+        exact Nat.mul_mod_right 16 _
+      · rw [hio, hisz, hdata, hsz', extendTo_self]
+        have hiv := (hencr he).1
+        have hi := (hencr he).2 k (by simp [hbs, hk])
+        have hivI : p.iae.iv = p.ready.iv := by rw [hent.2]; rfl
+        rw [hivI, hi]
+        have hdl16 : (p.ready.iv.drop 16).length = 16 := by simp [hivl]
+        rw [Crypto.cbc_inv_pad hc k _ _ hdl16]
+        have hz : Crypto.zeroPad16 (storedImage img.chip p.entry.data) = storedImage img.chip p.entry.data := by
+          unfold Crypto.zeroPad16 Crypto.zeroPad
+          rw [h16]; simp [Crypto.zeros]
+        rw [hz, ← hiv])
+  rw [hio, hisz, hifl] at this
+  exact this
+
+
+/-- in the exported file, container `k` occupies `[k * CONTAINER_SIZE, k * CONTAINER_SIZE + len)` -/
+theorem export_containers_fixed' (c : CryptoOps) (img : Image) (bin : Bytes)
+    (hexp : img.export c = .ok bin) (hA : 0 < img.chip.imageAlignment)
+    (us : List UContainer) (hus : img.update c = .ok us) (k : Nat) (u : UContainer) (hk : us[k]? = some u)
+    (hblob : BlobLenOK u.cont.sb) :
+    ∃ cb, u.export img.ver = .ok cb ∧ u.base = k * img.ver.containerSize ∧ k ≤ 3 ∧
+      slice bin (k * img.ver.containerSize) cb.length = cb := by
+  obtain ⟨us', cbytes, hus', _, hall, hval, hbin⟩ := Image.export_unfold c img bin hexp
+  rw [hus] at hus'; cases hus'
+  have hu : u ∈ us := List.mem_of_getElem? hk
+  have hea := exportAll_spec img.ver us cbytes hall
+  obtain ⟨cb, hcbm⟩ := mem_zip_of_length us cbytes u hea.1 hu
+  have hcbe : u.export img.ver = .ok cb := hea.2 _ hcbm
+  have hb := (updateContainers_bases c img.chip img.ver img.containers 0 _ us hus).2 k u hk
+  simp only [Nat.zero_add] at hb
+  have hcbe' := hcbe
+  unfold UContainer.export at hcbe'
+  obtain ⟨hd, ab, s, hdr, e1, e2, _, _, e5, e6, e7, _⟩ := exportContainer_spec img.ver u.cont _ cb hblob hcbe'
+  simp only [List.length_map] at e1 e5 e6 e7
+  have hsbo := sbo_exact img.ver u.placed.length
+  have hhl2 : headerLength img.ver u.placed.length (sbLayout img.ver u.cont.sb).length = cb.length := by
+    unfold headerLength
+    rw [(hdrLayout_widths img.ver).2, (iaeLayout_facts img.ver).2.2, e7, hsbo]; omega
+  have hcbne : cb ≠ [] := by
+    intro h; rw [h] at e7; simp at e7; omega
+  have hplaces := tree_places img.chip img.ver us cbytes bin hA hval hbin
+  have hcbin := hplaces.1 u cb hcbm hcbne hhl2
+  rw [hb.2.1] at hcbin
+  exact ⟨cb, hcbe, hb.2.1, hb.2.2.1, hcbin⟩
+
+theorem le_foldl_max : ∀ (l : List Nat) (init x : Nat), x ∈ l ∨ x ≤ init → x ≤ l.foldl max init
+  | [], init, x, h => by
+    rcases h with h | h
+    · cases h
+    · exact h
+  | a :: l, init, x, h => by
+    simp only [List.foldl_cons]
+    apply le_foldl_max l (max init a) x
+    rcases h with h | h
+    · rcases List.mem_cons.1 h with rfl | h
+      · exact Or.inr (Nat.le_max_right _ _)
+      · exact Or.inl h
+    · exact Or.inr (Nat.le_trans h (Nat.le_max_left _ _))
+
+/-- every image ends inside the reported length of the AHAB image -/
+theorem placed_within_length (ch : Chip) (us : List UContainer) (hA : 0 < ch.imageAlignment) (p : Placed) (hp : p ∈ allPlaced us) :
+    p.offset + p.ready.size ≤ imageLength ch us := by
+  unfold imageLength
+  simp only
+  have h1 : alignNat (p.offset + p.ready.size) 4 ∈
+      us.flatMap (fun u => u.placed.map (fun p => alignNat (p.offset + p.ready.size) 4)) := by
+    obtain ⟨u, hu, hpu⟩ := List.mem_flatMap.1 hp
+    exact List.mem_flatMap.2 ⟨u, hu, List.mem_map.2 ⟨p, hpu, rfl⟩⟩
+  have h2 := le_foldl_max _ 0 _ (Or.inl h1)
+  have h3 := alignNat_ge (p.offset + p.ready.size) 4 (by decide)
+  have h4 := alignNat_ge ((us.flatMap (fun u => u.placed.map (fun p => alignNat (p.offset + p.ready.size) 4))).foldl max 0)
+    ch.imageAlignment hA
+  omega
 
 end SpsdkVerif.Ahab
